@@ -309,7 +309,7 @@ def _visible(rd, n_nodes):
 @contract
 class MatchInstances(_Metric):
     target = EV + "match_instances"
-    props = ("C16",)
+    props = ("C16", "C15")
     concretize_masks = False
     # "G-P-N": ground-truth instances, predicted instances, nodes; "=": predictions are copies
     # of the ground truth (listed in reverse order)
